@@ -769,7 +769,20 @@ pub fn run_check(property: &str, tier: &str, part: Option<&str>, worker: bool) -
         let dir = format!("{}/replays", report::verif_root());
         let mut unconfirmed = 0usize;
         let mut seen = std::collections::BTreeSet::new();
+        let mut probe_known: std::collections::BTreeMap<String, (usize, String, String)> = Default::default();
         for f in &po.failing {
+            // a recorded finding, identified by its role: a byte displacement beyond 32 bits
+            let mut matched = None;
+            for e in &report::Known::load().entries {
+                if e["property"].as_str() == Some(property) && e["probe_far_displacement"].as_bool() == Some(true) && f["far"].as_bool() == Some(true) {
+                    matched = Some(e["id"].as_str().unwrap_or("?").to_string());
+                }
+            }
+            if let Some(id) = matched {
+                let n = probe_known.entry(id).or_insert((0usize, f["what"].as_str().unwrap_or("").to_string(), f["native"].as_str().unwrap_or("").to_string()));
+                n.0 += 1;
+                continue;
+            }
             if f["native"].is_null() {
                 unconfirmed += 1;
                 println!("INCONCLUSIVE: pointer-move lemma fails in the model but was not reproduced natively: {} ({})", f["what"].as_str().unwrap_or(""), f["model"].as_str().unwrap_or(""));
@@ -787,10 +800,14 @@ pub fn run_check(property: &str, tier: &str, part: Option<&str>, worker: bool) -
             sel_violations += 1;
         }
         probe_unconfirmed = unconfirmed;
+        for (id, (n, what, native)) in &probe_known {
+            println!("KNOWN-FINDING: property={} the baseline JIT encodes byte displacements in 32 bits: {} ; {} ({} lemma(s) this run; id {})", property, what, native, n, id);
+        }
         cov["pointer_move_lemmas_symbolic_geometry"] = json!({
             "configurations_checked": po.configurations, "configurations_total": po.total_configurations,
             "lemmas": po.lemmas, "discharged_unsat": po.discharged, "undecided": po.undecided.len(),
             "failing": po.failing.len(), "failing_confirmed_natively": po.failing_confirmed_natively, "failing_not_confirmed": unconfirmed,
+            "failing_matching_a_known_finding": probe_known.values().map(|x| x.0).sum::<usize>(),
             "solver_queries": po.stats.queries, "solver_seconds": po.stats.seconds,
             "undecided_samples": po.undecided.iter().take(3).collect::<Vec<_>>(),
             "rule": "machine code of the one-instruction bytecode program [Mov(shift)] (hook verif_from_bytecode), run in the x86 model up to the epilogue with buffer address, size, tape pointer and recorded offset as 64-bit solver variables; preconditions: size in [1, 2^60), buffer < 2^62, pointer cell-aligned, the whole access window [min, max] inside the block; hpbf_context_extend replaced by the contract of make_accessible(0, 1) (fresh block below 2^62 that keeps the old cells at added_below and contains the re-based offset; established for every geometry by the MIR-level lemmas of C09). Decided: fast path => moved pointer is ptr + shift*w, probed cell and the whole window inside the block; slow path => extend is asked for [0, 1), the recorded offset is the index of the probed cell, the re-based pointer denotes the moved cell, the whole window lies inside the new block",
